@@ -47,7 +47,7 @@ pub enum SyntaxError {
     IllegalPattern,
     #[error("illegal definition")]
     IllegalDefinition,
-    #[error("invalid context for definition {0:?}")]
+    #[error("invalid context for the definition of {}", .0 .0)]
     InvalidDefinitionContext(DefinitionBody),
     #[error("{1} is not matched to any pattern of macro {0}")]
     MacroMissMatch(String, Datum),
